@@ -101,12 +101,15 @@ func (a *FA) maskOf(v ssa.Value, depth int) (MaskSem, bool) {
 		}
 	case *ssa.BinOp:
 		switch x.Op {
-		case token.SUB: // (1<<n) - 1
+		case token.SUB: // (1<<n) - 1, Bit[n] - 1
 			if k, ok := constInt64(stripConv(x.Y)); ok && k == 1 {
 				if one, n, ok := asBin(x.X, token.SHL); ok {
 					if c, ok := constInt64(stripConv(one)); ok && c == 1 {
 						return MaskSem{"low", a.Lin(n), "computed"}, true
 					}
+				}
+				if m, ok := a.maskOf(x.X, depth+1); ok && m.Kind == "bit" {
+					return MaskSem{"low", m.N, "computed"}, true
 				}
 			}
 		case token.SHL:
